@@ -44,7 +44,7 @@ func Priv(label string) *secp256k1.PrivateKey { return nil }
 func SamePriv(a, b *secp256k1.PrivateKey) bool { return false }
 func SamePub(a, b *secp256k1.PublicKey) bool   { return false }
 func BytesEq(a, b []byte) bool                 { return false }
-func SchnorrSign(p *secp256k1.PrivateKey, hash []byte, aux int) *schnorr.Signature { return nil }
+func SchnorrSign(p *secp256k1.PrivateKey, hash []byte, aux uint64) *schnorr.Signature { return nil }
 
 // database
 func SqlDB(dir string) *sql.DB                 { return nil }
@@ -60,6 +60,7 @@ func SqlRowU64(db *sql.DB, table string, i int, col string) uint64 { return 0 }
 // Pick*: select one of the options by a (symbolic) index without forking; idx must be < len(options)
 func PickStr(idx uint64, options ...string) string                                { return "" }
 func PickU64(idx uint64, options ...uint64) uint64                                { return 0 }
+func PickBytes(idx uint64, options ...[]byte) []byte                              { return nil }
 func PickPriv(idx uint64, options ...*secp256k1.PrivateKey) *secp256k1.PrivateKey { return nil }
 
 // UF64 is an uninterpreted function uint64 -> uint64 (same argument => same result)
